@@ -7,6 +7,9 @@ CLAIMED = {
    text="Every history of up to 3 (quick) / 4 (thorough) add-operations over the 96-operation alphabet named in the property is enumerated with all 56 queries after each prefix and compared with a reference model that is a plain list scan; a rapid state machine adds long histories, wide/inverted ranges, multi-code markers, nil receivers. Exhaustive within the bound, sampled beyond it.",
    note="trusts the harness's restated code table (5 categories, 16 codes) and the list-scan model; range starts are valid token.Pos (>=1)", ref="DESIGN.md section 3, C16"),
 }
+CLAIMED["C19"] = dict(technique="exhaustive (line length x column) enumeration + rapid lines with tabs/multi-byte runes, judged by a validity predicate over the rendered message",
+   text="All line lengths 0..3x the display limit x all columns 1..len+1 are rendered through the public Reporter with a hand-made analysis.Pass (real token.File line table, ReadFile closure) and judged by a validity predicate: shown line is a window of the right source line, ellipses exactly on cut sides, length <= limit+markers (in characters), caret cell = cell of the reported byte with tabs mirrored, context lines are the neighbours; rapid adds tabs, multi-byte runes, 100 kB lines, unreadable and short files.",
+   note="cells = runes, no double-width runes; column len+1 only judged for boundedness; position-encoded content makes the shown window locatable", ref="DESIGN.md section 3, C19")
 ALL = ["C%02d" % i for i in range(1, 20)]
 NA_REASON = {}
 def main():
